@@ -36,7 +36,11 @@
 	    g_qa_addr == &(S)->raq && g_qb_addr == &(S)->waq &&                \
 	    g_pollr_addr == &(S)->readable && g_pollw_addr == &(S)->writable)
 /* ring: inline two-slot buffer or a heap array of lmq_alloc slots (built by the harness) + representation invariant */
+#ifdef PX_RING_SLOTS
+#define PX_LMQ_PRE(q) (LMQ_WF_SCALAR(q) && ((q)->lmq_alloc == 0 || (q)->lmq_alloc == PX_RING_SLOTS))
+#else
 #define PX_LMQ_PRE(q) (LMQ_WF_SCALAR(q) && (q)->lmq_alloc <= PX_MAXALLOC)
+#endif
 /* a message as the socket layer hands it over / as *_sock_send leaves it on a waiting aio (pair1: one hop word) */
 #define PX_MSG_OK(m) ((m)->m_refcnt.v == 1 && (m)->m_header_len <= MSG_HDRCAP)
 #define PX1_MSG_OK(m) ((m)->m_refcnt.v == 1 && (m)->m_header_len == 4 && BE32(HDR(m)) < 0xff)
